@@ -241,6 +241,29 @@ def evaluate(payload):
         if not ok and not any(l.startswith(f"t.md:{pl}:1: INLINE:") for l in inline):
             res["fail"] = ("pragma-error-position", {"pragma": pragma, "inline_errors": inline, "expected_line": pl})
             break
+    if res["fail"] is None and firing:
+        # two pragmas: a disable-num-lines range for the firing rules and, inside that range, a
+        # disable-next-line for another (quiet) rule - the range must still apply on the covered lines
+        ids = ",".join(sorted(x.lower() for x in firing))
+        p1 = f"<!-- pyml disable-num-lines 3 {ids}-->"
+        p2 = f"<!-- pyml disable-next-line {QUIET_RULE}-->"
+        new_lines = list(lines[:ins]) + [p1, p2] + list(lines[ins:])
+        r = _scan("\n".join(new_lines))
+        res["feeds"] += 1
+        if r is not None:
+            F2, inline = r
+            shifted = [(l + 2 if l >= pl else l, c, ru, d) for (l, c, ru, d) in F]
+            covered = {pl + 2, pl + 3}
+            exp_f = [f for f in shifted if f[0] not in covered]
+            if ins == len(lines):
+                exp_f = [f for f in exp_f if f[2] != "MD047"]
+                F2 = [f for f in F2 if f[2] != "MD047"]
+            got = [f for f in F2 if f[0] not in (pl, pl + 1)]
+            expected_suppressions += len(shifted) - len(exp_f)
+            if sorted(got) != sorted(exp_f) and sorted(F2) != sorted(exp_f):
+                extra = sorted(set(got) - set(exp_f))
+                missing = sorted(set(exp_f) - set(got))
+                res["fail"] = ("two-pragmas:failures-differ:" + "+".join(sorted({f[2] for f in extra + missing})), {"pragmas": [p1, p2], "at_line": pl, "unexpected": extra, "missing": missing})
     res["states"] = states
     res["nontrivial"] = expected_suppressions > 0
     res["count"] = {"expected_suppressions": expected_suppressions}
